@@ -14,7 +14,7 @@ import random
 META = {
     "level": "exploration",
     "rule": (
-        "bounded-exhaustive histories over the alphabet {enter A/B/C, exit, raise "
+        "bounded-exhaustive histories over the alphabet {enter A/B/C/empty/prepared-earlier, exit, raise "
         "ValueError/KeyboardInterrupt, set X/Y, bad_set, bad_enter, mutate, mutate_defaults} "
         "(quick: all valid histories of length <= 4, thorough: <= 6), compared with a stack "
         "model after every step; plus random long histories with SystemExit/GeneratorExit and "
@@ -24,8 +24,8 @@ META = {
         "distinct by construction."
     ),
     "exhaustive": {
-        "quick": "all valid histories of length <= 4 over the 13-symbol alphabet",
-        "thorough": "all valid histories of length <= 6 over the 13-symbol alphabet",
+        "quick": "all valid histories of length <= 4 over the 15-symbol alphabet",
+        "thorough": "all valid histories of length <= 6 over the 15-symbol alphabet",
     },
     "assumptions": [
         "option state is process-global and single-threaded (no threads in numpoly)",
@@ -42,10 +42,14 @@ OPTS = {
     "C": {"default_varname": "z", "varname_filter": r".+", "retain_names": True},
     "X": {"retain_coefficients": True},
     "Y": {"sort_reverse": True, "retain_names": False, "display_exponent": "^"},
+    "E": {},
 }
 ALPHABET = [
     "enterA", "enterB", "enterC", "exit", "raiseValueError", "raiseKeyboardInterrupt",
     "setX", "setY", "bad_set", "bad_enter", "mutate", "mutate_defaults", "setA",
+    # a block without any option (a pure scope), and a block whose manager object was created
+    # before a set_options call and entered afterwards ("previous" = the state at entry)
+    "enterE", "enterPB",
 ]
 EXTRA = ["raiseSystemExit", "raiseGeneratorExit", "raiseBaseException"]
 EXC = {
@@ -118,11 +122,19 @@ class Runner:
         while pos < len(history):
             step = history[pos]
             if step.startswith("enter"):
-                opts = OPTS[step[5:]]
+                prepared = None
+                if step == "enterPB":
+                    opts = OPTS["B"]
+                    prepared = numpoly.global_options(**opts)
+                    numpoly.set_options(**OPTS["X"])
+                    self.state.update(OPTS["X"])
+                else:
+                    opts = OPTS[step[5:]]
                 saved = dict(self.state)
                 raised = None
                 try:
-                    with numpoly.global_options(**opts) as yielded:
+                    with (prepared if prepared is not None else
+                          numpoly.global_options(**opts)) as yielded:
                         self.state.update(opts)
                         self.check(pos, step)
                         if yielded != self.state and self.bad is None:
